@@ -21,21 +21,38 @@ theorem encU64_eq (n : Nat) :
 @[simp] theorem encU64_length (n : Nat) : (encU64 n).length = 8 := by
   rw [encU64_eq]; rfl
 
-private theorem range8 : List.range 8 = [0, 1, 2, 3, 4, 5, 6, 7] := rfl
-
 private theorem toNat_ofNat_mod (k : Nat) : (UInt8.ofNat (k % 256)).toNat = k % 256 := by
   rw [UInt8.toNat_ofNat']
   omega
 
+private theorem pow_2_64 : (2 : Nat) ^ 64 = 256 ^ 8 := by decide
+
+/-- base-256 positional reconstruction: folding the first `k` of `m ≥ k` little-endian digits
+    of `n` gives `n mod 256^k` (proved for symbolic `k`, so that no power of 256 is ever
+    evaluated in unary by the unifier) -/
+theorem digits_fold_gen (n m : Nat) : ∀ k, k ≤ m →
+    (List.range k).foldl
+      (fun acc i =>
+        acc + (((List.range m).map (fun i => UInt8.ofNat ((n / 256 ^ i) % 256))).getD i 0).toNat * 256 ^ i) 0
+      = n % 256 ^ k := by
+  intro k
+  induction k with
+  | zero => intro _; simp [Nat.mod_one]
+  | succ k ih =>
+    intro hk
+    have hk' : k < m := hk
+    rw [List.range_succ, List.foldl_append, ih (Nat.le_of_lt hk')]
+    simp only [List.foldl_cons, List.foldl_nil]
+    have hd : ((List.range m).map (fun i => UInt8.ofNat ((n / 256 ^ i) % 256))).getD k 0
+        = UInt8.ofNat ((n / 256 ^ k) % 256) := by
+      simp [List.getD, hk']
+    rw [hd, toNat_ofNat_mod, Nat.mod_pow_succ, Nat.mul_comm]
+
 /-- the fold of `decU64` over the eight digits of `n` reconstructs `n mod 2^64` -/
 theorem digits_fold (n : Nat) :
     (List.range 8).foldl (fun acc i => acc + ((encU64 n).getD i 0).toNat * 256 ^ i) 0 = n % 2 ^ 64 := by
-  rw [range8, encU64_eq]
-  simp only [List.foldl_cons, List.foldl_nil, List.getD_cons_zero, List.getD_cons_succ,
-    toNat_ofNat_mod]
-  rw [show (2 : Nat) ^ 64 = 256 ^ 8 from by decide]
-  simp only [Nat.mod_pow_succ, Nat.pow_zero, Nat.mod_one, Nat.mul_comm (256 ^ _)]
-  simp only [Nat.mul_comm _ (1 : Nat)]
+  rw [pow_2_64]
+  exact digits_fold_gen n 8 8 (Nat.le_refl 8)
 
 theorem decU64_encU64_mod (n : Nat) (r : List UInt8) :
     decU64 (encU64 n ++ r) = some (n % 2 ^ 64, r) := by
@@ -131,5 +148,16 @@ theorem decArr_short {F} (ob : UInt64 → F) (n : Nat) (h : n < 2 ^ 64) (r : Lis
   unfold decArr
   rw [decU64_encU64 _ h]
   simp [hs]
+
+/-! ### sequencing -/
+
+/-- A round-trip fact in "bind form": the way a decoder is used inside a struct decoder.
+    Struct proofs rewrite with this (a propositional rewrite) instead of reducing
+    `(some _).bind _` definitionally; otherwise the kernel, comparing `some _` with
+    `decU64 (encU64 n ++ _)`, starts evaluating the decoder on the symbolic bytes. -/
+theorem bind_rt {A B : Type} {d : List UInt8 → Option (A × List UInt8)} {bs : List UInt8} {a : A}
+    (h : ∀ r, d (bs ++ r) = some (a, r)) (r : List UInt8) (k : A × List UInt8 → Option B) :
+    (d (bs ++ r) >>= k) = k (a, r) := by
+  rw [h r]; rfl
 
 end TaRs.Codec
